@@ -163,7 +163,20 @@ def unseen_query(e, X, y):
     return X, y
 
 
-def history(e, variants, seed, dseed, between=True, failing=None):
+def _corrected_copy(data):
+    """the same table with its INNER rows changed (first and last rows, shape, dtype and targets kept): what a caller
+    has after correcting some records of the table the model was fitted on"""
+    import numpy
+    X, y, w = data
+    if not (isinstance(X, numpy.ndarray) and X.ndim == 2 and X.shape[0] >= 4 and X.dtype.kind == "f"):
+        return None
+    X2 = X.copy()
+    inner = X[1:-1]
+    X2[1:-1] = inner[::-1] * 0.5 + inner.mean(axis=0) * 0.5
+    return X2, (y.copy() if hasattr(y, "copy") else y), w
+
+
+def history(e, variants, seed, dseed, between=True, failing=None, corrected=False):
     """fit(A); observers(A); fit(B); observers(B)  vs  fresh: fit(B); observers(B).
     `failing`: a kind of invalid data (props.c02.corrupt): a fit on the corrupted A is attempted before every fit - an
     earlier fit that FAILED is an earlier fit too, nothing it left behind may leak."""
@@ -171,6 +184,11 @@ def history(e, variants, seed, dseed, between=True, failing=None):
     from props import c02
     rng = random.Random(dseed)
     datas = [_menu.make_data(e.data, rng, v) for v in variants]
+    if corrected:
+        c = _corrected_copy(datas[0])
+        if c is None:
+            raise ValueError("no corrected copy for this kind of data")
+        datas = [datas[0], c]
     est = e.factory()
     for i, (X, y, w) in enumerate(datas):
         if failing:
@@ -521,6 +539,17 @@ def search(ctx, hints):
             if len(samples) < 3:
                 samples.append({"entry": e.name, "history": "fit(A%d); observe; fit(A%d); observe vs fresh" % variants[:2],
                                 "fitted_attributes": sorted(fitted_state(est))})
+        # the second training set is the first one with its inner rows corrected (same shape, same first and last rows)
+        seed, dseed = ctx.rng.randrange(1 << 30), ctx.rng.randrange(1 << 30)
+        inp_c = {"entry": e.name, "kind": "refit", "variants": [0, 0], "seed": seed, "dseed": dseed, "corrected": True}
+        try:
+            est, fresh, last, ref = history(e, (0, 0), seed, dseed, corrected=True)
+            evals += 1
+            nontriv.add((e.name, "corrected-copy"))
+            if e.seeded:
+                add(compare(e, est, fresh, last, ref, "refit-on-corrected-copy"), inp_c)
+        except Exception:  # noqa: BLE001
+            pass
         # the same history with a FAILING fit (invalid data) before each fit
         for kind in (("nan-y", "mismatch") if not ctx.thorough else ("nan-y", "mismatch", "nan", "short")):
             seed, dseed = ctx.rng.randrange(1 << 30), ctx.rng.randrange(1 << 30)
@@ -722,12 +751,14 @@ def replay(ctx, item):
         bad = compare(e2, est, fresh, last, ref, "reconfigured", state=False)
     else:
         try:
-            est, fresh, last, ref = history(e, tuple(inp["variants"]), inp["seed"], inp["dseed"], failing=inp.get("failing"))
+            est, fresh, last, ref = history(e, tuple(inp["variants"]), inp["seed"], inp["dseed"], failing=inp.get("failing"),
+                                            corrected=bool(inp.get("corrected")))
         except Exception as ex:  # noqa: BLE001
             if not inp.get("failing"):
                 raise
             return [Violation(k, w, inp, o, r)
                     for k, w, o, r in failed_history_raises(e, inp["seed"], inp["dseed"], inp["failing"], ex)]
-        bad = compare(e, est, fresh, last, ref, ("refit-after-failed-fit" if inp.get("failing") else "refit")
+        bad = compare(e, est, fresh, last, ref, ("refit-after-failed-fit" if inp.get("failing") else
+                                                 "refit-on-corrected-copy" if inp.get("corrected") else "refit")
                       if inp["kind"] == "refit" else "same-global-seed")
     return [Violation(k, w, inp, o, r) for k, w, o, r in bad]
